@@ -480,6 +480,37 @@ func (e *refEnv) stmt(s ast.Stmt) {
 		} else if x.Else != nil {
 			e.stmt(x.Else)
 		}
+	case *ast.SwitchStmt:
+		if x.Init != nil {
+			e.stmt(x.Init)
+		}
+		if x.Tag == nil {
+			e.fail("unsupported tagless switch")
+			return
+		}
+		tag := e.expr(x.Tag)
+		var chosen, def *ast.CaseClause
+		for _, c := range x.Body.List {
+			cc := c.(*ast.CaseClause)
+			if cc.List == nil {
+				def = cc
+				continue
+			}
+			for _, ce := range cc.List {
+				if v := e.expr(ce); chosen == nil && v.isBool == tag.isBool && v.u == tag.u && v.b == tag.b {
+					chosen = cc
+				}
+			}
+		}
+		if chosen == nil {
+			chosen = def
+		}
+		if chosen != nil {
+			e.push()
+			e.block(chosen.Body)
+			e.pop()
+			e.brk = false // a break inside a case leaves the switch
+		}
 	case *ast.BlockStmt:
 		e.push()
 		e.block(x.List)
@@ -1072,6 +1103,10 @@ func features(src string) []string {
 			if depth >= 1 {
 				f["nested"] = true
 			}
+			if x.Init != nil {
+				f["if-init"] = true
+				stmt(x.Init, depth)
+			}
 			expr(x.Cond)
 			walk(x.Body.List, depth+1)
 			if x.Else != nil {
@@ -1111,6 +1146,17 @@ func features(src string) []string {
 			loops = append(loops, x.Post != nil)
 			walk(x.Body.List, depth+1)
 			loops = loops[:len(loops)-1]
+		case *ast.SwitchStmt:
+			f["switch"] = true
+			if x.Init != nil {
+				f["switch-init"] = true
+				stmt(x.Init, depth)
+			}
+			for _, c := range x.Body.List {
+				if cc, ok := c.(*ast.CaseClause); ok {
+					walk(cc.Body, depth+1)
+				}
+			}
 		case *ast.BranchStmt:
 			switch x.Tok {
 			case token.BREAK:
@@ -1132,6 +1178,17 @@ func features(src string) []string {
 		if fd, ok := d.(*ast.FuncDecl); ok && fd.Name.Name == "main" {
 			walk(fd.Body.List, 0)
 		}
+	}
+	if f["if-init"] || f["switch-init"] {
+		// statements with an init clause: placement, expression form and bodies are dropped so that one
+		// defect of the init clause gives one signature
+		g := map[string]bool{}
+		for _, k := range []string{"if-init", "switch-init", "incdec-nested"} {
+			if f[k] {
+				g[k] = true
+			}
+		}
+		return keys(g)
 	}
 	if f["continue"] || f["break"] {
 		// loop control programs: only what concerns the control transfer (loop form and variable
@@ -1269,6 +1326,9 @@ func part2(run *vlib.Run, bt *built) bool {
 	chp, chd := channelPrograms(run.Thorough())
 	progs = append(progs, chp...)
 	planDescr = append(planDescr, chd...)
+	iip, iid := initClausePrograms(run.Thorough())
+	progs = append(progs, iip...)
+	planDescr = append(planDescr, iid...)
 	lcp, lcd := loopCtlPrograms(run.Thorough())
 	progs = append(progs, lcp...)
 	planDescr = append(planDescr, lcd...)
@@ -1466,6 +1526,7 @@ func part2(run *vlib.Run, bt *built) bool {
 	run.Set("part2_channel_family_oracles", fmt.Sprintf("(1) termination: every program is compiled under the gosched scheduler; a program all of whose explored compiler schedules (preemption bound 2, cap 600 runs) end with an empty enabled set is a proven hang and is re-run in a fresh process before it is reported; (2) %d independent compilations (separate processes, same compiler schedule) must emit identical assembly files and bondmachine JSON; (3) hardware execution is NOT available for this family: %d of %d generated multi-processor file sets elaborate under vsim (first diagnostic: %s; generator defects of chw/wrd/wwr and of the channel shared object, property C18); instead the emitted assembly of all processors is run on a multi-processor ISA model (rendezvous channels wired by Shared_links of the saved bondmachine, output ids from the requirements dump) and compared with a small-step go/ast reference evaluator with Go channel semantics, both run to quiescence (a BondMachine processor does not stop when main returns); every distinct compilation variant is checked", chanCompilations, chElab, chN, chNote))
 	run.Set("part2_channel_family", "uint8 (thorough: also uint16): {receive in a goroutine, in main, in an ordinary function} x {send in main, in an ordinary function, in a goroutine} (both ends in main excluded) x {no alias, c2 = c used by the sender, c2 = c used by the receiver}; pipeline main -> relay goroutine -> worker (2 channels, 2 goroutines); two independent channel/worker pairs; two messages on one channel; goroutine -> goroutine -> main; channel declared in a nested block; ordinary functions on two channels; make(chan T) (refused by the compiler: expected); thorough: the first four extras also with an aliased sender")
 	run.Set("part2_channel_expression_order_family", "producer goroutine sending 1,2,3,4 on one channel (prod) or 1,5,2,10 alternately on two channels a,b (prodtwo); main: v = 7; x = L op R; IOWrite(o0, x); x = L op R; IOWrite(o0, x) for all ordered pairs (L,R) of the operand forms {<-C, <-C*3, <-C+1, (<-C), take(C), 2, v} (two channels: L over a, R over b, L must communicate); op + : all pairs; op * : quick the pairs over {<-C, <-C*3, take(C), v}, thorough all pairs; uint8 (thorough also uint16); 2 compilations each; oracle: multi-processor ISA model vs go/ast evaluator performing the communications of an expression left to right, and termination; parenthesised operands are outside the compiler's subset (no ParenExpr in Expr_eval): rejected-as-expected")
+	run.Set("part2_init_clause_family", "a = 1; reg_b = 3; `if V = E; C { B } [else { IOWrite(o0, other) }]`; IOWrite(o0, V) with V in {a, reg_b}, E in {2, the other variable, a + reg_b, f(reg_b)}, C in {V == 2, V == 4}, B in {IOWrite(o0, V); V = V + 1 IOWrite(o0, V)}, placed at top level, inside `for reg_t = 0; reg_t == 2 == false; reg_t++ { }` and inside `if reg_t == 0 { }`; `switch V = E; V { case 2: IOWrite(o0, V) default: IOWrite(o0, other) }` for the same V and E (thorough: also uint16)")
 	run.Set("part2_loop_control_family", "break / continue: loops {for reg_b = 0; reg_b == 3 == false; reg_b++ | same with post reg_b = reg_b + 1 | for a = 3; a == 0 == false; a-- | for reg_b == 3 == false { reg_b++ ... } | for { reg_b++; if reg_b == 3 { break } ... }} x bodies {IOWrite(LV); IOWrite(LV) CV++; CV++ IOWrite(CV)} x a control statement `if C { continue }` / `if C { break }` with C in {LV == 1, LV == 1 == false} at every position of the body; the counter is written after the loop; nested: the 3-clause loop (assignment post) with a control inside an outer counting loop, and a control of the outer loop after the inner loop; thorough: also uint16 and the body IOWrite(LV) CV++ IOWrite(CV); sources that do not terminate are skipped")
 	run.Set("part2_storage_reuse_family", "1..2 outer memory variables; sibling constructs declaring k memory locals each (every local assigned a distinct constant and written to the output inside its block), outer variables written after them; two siblings, all (k1,k2) in 0..3: bare/bare, if reg_t == 1 {k1} else {k2}, bare block then k2 top level declarations (thorough: also if reg_t == 0, uint16); thorough: three siblings, all (k1,k2,k3) in 0..3: bare/bare/bare, if-else + bare, bare + if-else, bare/bare + declarations, uint8 and uint16")
 	run.Set("part2_shadowing_family", "block scoping: outer variable V (a = memory, reg_b = register), block kinds {bare, if body, else body, for body} x {redeclares V, does not} x PRE {V = 5 (thorough: also none)} x INNER = all sequences of 1..2 statements of {V = 1, V = V + 2, V++, IOWrite(o0, V)} x POST {IOWrite; V++ IOWrite (thorough: also V = V + 2 IOWrite; IOWrite V = 1 IOWrite)} (quick: the non-redeclaring control only for the bare block); two levels: block {[var V] s1 {[var V] s2 IOWrite} IOWrite} IOWrite with s1 in {V = 1, V++}, s2 in {V = 3, V = V + 2, V++}, all four redeclaration combinations (quick: outer block bare; thorough: all four kinds); 16 bit: bare and for body, redeclared, one inner statement")
